@@ -514,14 +514,17 @@ fn c02_cases(out: &mut Out, r: &mut Rng, thorough: bool) {
     // fault injection: >= 2000 replies per setting
     let faults: Vec<u8> = if thorough { vec![1, 5, 10, 25, 50] } else { vec![10, 50] };
     for &p in &faults {
-        let mut g = Gen::new(r);
-        let cfg = cfg_of(&mut g, 64, p, "off");
-        let mut bursts = vec![];
-        for _ in 0..34 {
-            let burst: Vec<(usize, Vec<u8>)> = (0..64).map(|i| (i % 16, g.valid_any())).collect();
-            bursts.push(burst);
+        // full batches (deep paths) and single-request batches (empty PATH): the failing share must be p in both
+        for &bs in &[64u8, 1u8] {
+            let mut g = Gen::new(r);
+            let cfg = cfg_of(&mut g, bs, p, "off");
+            let mut bursts = vec![];
+            for _ in 0..34 {
+                let burst: Vec<(usize, Vec<u8>)> = (0..64).map(|i| (i % 16, g.valid_any())).collect();
+                bursts.push(burst);
+            }
+            run_scenario(out, Scenario { cfg, nclients: 16, bursts, sentinel: false, tag: format!("fault{}b{}", p, bs), pauses: vec![] });
         }
-        run_scenario(out, Scenario { cfg, nclients: 16, bursts, sentinel: false, tag: format!("fault{}", p), pauses: vec![] });
     }
 }
 
